@@ -43,6 +43,39 @@ var permittedMutators = map[string]string{
 	"lisp.GetType":                                            "builds a fresh quoted symbol",
 }
 
+// bangImplementations: the declared functions registered as builtins ONLY under names that end in
+// `!` — the language's own convention for operations that change their argument in place
+// (docs/lang.md: assoc!, dissoc!, append!, append-bytes!).  A new in-place operation that follows
+// the convention is a documented mutator by its name; the non-mutating twin is judged by
+// NONMUT.result-not-argument and the MUT.* ownership rules as before.
+func (c *Ctx) bangImplementations() map[string]string {
+	if c.bangImpls != nil {
+		return c.bangImpls
+	}
+	names := map[string][]string{}
+	for _, e := range c.Registry() {
+		if e.Fn == nil || e.Kind != "builtin" {
+			continue
+		}
+		names[FuncName(originOf(e.Fn))] = append(names[FuncName(originOf(e.Fn))], e.Name)
+	}
+	out := map[string]string{}
+	for fn, ns := range names {
+		all := true
+		for _, n := range ns {
+			if !strings.HasSuffix(n, "!") {
+				all = false
+			}
+		}
+		if all {
+			sort.Strings(ns)
+			out[fn] = strings.Join(ns, ", ")
+		}
+	}
+	c.bangImpls = out
+	return out
+}
+
 func init() {
 	register(&Rule{ID: "MUT.mutators", Floor: 8,
 		Doc: "the functions that write, in place, storage of a value they did not allocate (justified by an unsealed/never-sealed test, or audited) are exactly the documented mutators and metadata stampers; every other builtin only writes storage it owns",
@@ -67,6 +100,10 @@ func init() {
 				sort.Strings(kinds)
 				if why, ok := permittedMutators[u.Name()]; ok {
 					obs = append(obs, mkOb(c, "MUT.mutators", u, "writes storage it does not own", first, Proved, "documented in-place writer ("+strings.Join(kinds, ", ")+"): "+why, false))
+				} else if bang, ok := c.bangImplementations()[u.Name()]; ok {
+					obs = append(obs, mkOb(c, "MUT.mutators", u, "writes storage it does not own", first, Proved, "registered only as "+bang+": a name ending in `!` is the language's convention for an operation that changes its argument in place ("+strings.Join(kinds, ", ")+")", false))
+				} else if via, ok := c.privateHelperOf(u.Obj, func(n string) bool { _, p := c.bangImplementations()[n]; return p }, 0); ok {
+					obs = append(obs, mkOb(c, "MUT.mutators", u, "writes storage it does not own", first, Proved, "private helper of the `!` operation "+via, false))
 				} else {
 					obs = append(obs, mkOb(c, "MUT.mutators", u, "writes storage it does not own", first, Violated,
 						"this function changes, in place, a value it did not create ("+strings.Join(kinds, ", ")+") and is not one of the documented mutating operations (assoc! dissoc! append! append-bytes! stable-sort, elpspath ! forms): a pre-existing value becomes visible changed through every reference to it", true))
@@ -133,7 +170,16 @@ func init() {
 							obs = append(obs, o)
 							continue
 						}
-						if via, ok := c.servesPermitted(fname, func(n string) bool { _, p := permitted[n]; return p }); ok {
+						if bang, ok := c.bangImplementations()[fname]; ok {
+							o.Verdict, o.Detail = Proved, "registered only as "+bang+": a name ending in `!` documents an in-place operation"
+							obs = append(obs, o)
+							continue
+						}
+						if via, ok := c.servesPermitted(fname, func(n string) bool {
+							_, p := permitted[n]
+							_, b := c.bangImplementations()[n]
+							return p || b
+						}); ok {
 							o.Verdict, o.Detail = Proved, "private helper of the documented mutator "+via
 							obs = append(obs, o)
 							continue
